@@ -82,6 +82,9 @@ func (w *verifC12) op(k int, tag string) {
 	case 1: // SetNode
 		n := store.Node{ID: w.idArg(tag + "id"), IsHost: verifapi.Bool(tag + "ishost"), Kind: []string{"geth", "parity"}[verifapi.Choose(tag+"kind", 2)],
 			LastSeen: verifapi.Now(), BlockNumber: verifapi.Uint64(tag + "blk"), URI: "enode://x@192.0.2.1:30303"}
+		if verifapi.Bool(tag + "never-seen") {
+			n.LastSeen = time.Time{} // a record without a check-in is stored as given
+		}
 		verifapi.Class("setnode-on-existing-node-resets-peers-in-memory-only", true)
 		verifapi.Assert(sameErr(d.SetNode(n), s.SetNode(n)), "c12.setnode-result")
 	case 2: // GetNode
